@@ -184,7 +184,8 @@ def extract_source_facts(repo):
         enc = fb.args[0]
         if not (isinstance(enc, ast.Call) and isinstance(enc.func, ast.Attribute) and enc.func.attr == "encode"):
             raise ValueError("encode")
-        encoding = enc.args[0].value if enc.args else "utf-8"
+        import codecs
+        encoding = codecs.lookup(enc.args[0].value if enc.args else "utf-8").name      # 'utf8', 'UTF-8' … are the same codec
         sc = enc.func.value
         if not is_call(sc, None, 1):
             raise ValueError("str")
@@ -207,6 +208,8 @@ def extract_source_facts(repo):
         v = st.value
         if not (isinstance(v, ast.BinOp) and type(v.op) in BINOPS):
             raise ValueError("step")
+        if isinstance(v.op, ast.Mod) and isinstance(v.right, ast.Name) and v.right.id == m_:
+            raise ValueError("`% m` is the same map as `& (m-1)` for m = 2^30 (lcg_params_ok): an equivalent form, not compared")
         lin = v.left
         ok = isinstance(lin, ast.BinOp) and isinstance(lin.op, ast.Add) and isinstance(lin.left, ast.BinOp) and isinstance(lin.left.op, ast.Mult) \
             and {dotted(lin.left.left), dotted(lin.left.right)} == {a_, s_} and dotted(lin.right) == c_
@@ -234,7 +237,8 @@ def extract_source_facts(repo):
         sub = [n for n in ast.walk(f) if isinstance(n, ast.Subscript) and dotted(n.value) == "seq" and is_call(n.slice, None, 1)]
         if len(sub) != 1:
             raise ValueError("unweighted")
-        return {"choice.cmp": names[0], "choice.unweighted_conv": dotted(sub[0].slice.func)}
+        conv = dotted(sub[0].slice.func)
+        return {"choice.cmp": names[0], "choice.unweighted_conv": "int" if conv in ("int", "floor", "math.floor") else conv}   # same on a non-negative argument
 
     def reduce_args():
         r = next(n for n in ast.walk(meth["__reduce__"]) if isinstance(n, ast.Return)).value
@@ -246,7 +250,7 @@ def extract_source_facts(repo):
         f = mod["seed"]
         g = [n for n in f.body if isinstance(n, ast.Global)]
         a = [n for n in f.body if isinstance(n, ast.Assign)]
-        if not (g and len(a) == 1 and dotted(a[0].targets[0]) in g[0].names and is_call(a[0].value, None, 1)):
+        if not (g and len(a) == 1 and dotted(a[0].targets[0]) in g[0].names and is_call(a[0].value, "CobaRandom", 1)):
             raise ValueError("seed")
         return {"module.seed": "%s=%s(%s)" % (dotted(a[0].targets[0]), dotted(a[0].value.func), dotted(a[0].value.args[0]))}
 
@@ -281,7 +285,18 @@ def extract_source_facts(repo):
         f = meth["_next_gaussian"]
         loop = next(n for n in f.body if isinstance(n, ast.While))
         inner = [n for n in loop.body if isinstance(n, ast.While)]
-        guard = ("while " + ast.unparse(inner[0].test)) if inner else ""
+        if inner:
+            t = inner[0].test
+            zero = isinstance(t, ast.Compare) and len(t.ops) == 1 and isinstance(t.ops[0], ast.Eq) and dotted(t.left) == "U" \
+                and isinstance(t.comparators[0], ast.Constant) and t.comparators[0].value == 0
+            zero = zero or (isinstance(t, ast.UnaryOp) and isinstance(t.op, ast.Not) and dotted(t.operand) == "U")
+            if not zero:
+                raise ValueError("guard shape")
+            guard = "while U == 0"
+        elif any(isinstance(n, (ast.If, ast.Compare)) for x in loop.body for n in ast.walk(x)):
+            raise ValueError("guard written differently")
+        else:
+            guard = ""
         asg = {dotted(n.targets[0]): n.value for n in loop.body if isinstance(n, ast.Assign)}
         R = asg["R"].args[0]          # sqrt(<coef>*log(U))
         S = asg["S"]                  # <coef>*pi*next(...)
@@ -342,12 +357,24 @@ class _Via:
 
 
 class _PmfLearner:
-    def __init__(self, cur):
-        self.cur = cur
+    """answers predict() with the pmf(s) the harness put into `cur`; for batched actions one pmf per row, in row-major
+    (`order='row'`: [pmf_row0, pmf_row1, ..]) or column-major (`order='col'`: one column per action) layout"""
+    def __init__(self, cur, order=None):
+        self.cur, self.order = cur, order
     def predict(self, context, actions):
-        return self.cur["w"]
+        if not hasattr(actions, "is_batch"):
+            return self.cur["w"]
+        rows = self.cur["rows"][:len(actions)]
+        return [list(r) for r in rows] if self.order == "row" else [list(c) for c in zip(*rows)]
     def learn(self, *a, **k):
         pass
+
+
+class _Batch(list):
+    is_batch = True
+
+
+LEARNER_KINDS = ("eps", "ucb")
 
 
 def build_via(sd, insts):
@@ -360,6 +387,21 @@ def build_via(sd, insts):
         from coba.learners.utilities import PMFInfoPredictor
         return _Via(PMFInfoPredictor(lambda c, a: (cur["w"], {"k": 1}), seed), cur)
     from coba.safety import SafeLearner
+    if via in ("fixed",) + LEARNER_KINDS:      # every learner built on PMFPredictor that runs without extra packages
+        from coba.learners import FixedLearner, BanditEpsilonLearner, BanditUCBLearner
+        if via == "fixed":
+            lrn = FixedLearner([(p[0] if p[1] == 1 else tofloat(p)) for p in sd["pmf"]], seed)
+        elif via == "eps":
+            lrn = BanditEpsilonLearner(tofloat(sd["eps"]), seed)
+        else:
+            lrn = BanditUCBLearner(seed)
+        if sd.get("wrap") is not None:     # wrapped by SafeLearner (own seed): the draws are the learner's, whatever the wrapper's seed
+            lrn = SafeLearner(lrn, sd["wrap"])
+            if sd.get("wrap2") is not None:
+                lrn = SafeLearner(lrn, sd["wrap2"])
+        return _Via(lrn, cur)
+    if via in ("safe-row", "safe-col"):        # SafeLearner's batched PMF paths
+        return _Via(SafeLearner(_PmfLearner(cur, via[5:]), seed), cur)
     if sd.get("of") is not None:       # SafeLearner(<the SafeLearner object of instance `of`>, seed): re-wrapping a live wrapper
         base = insts[sd["of"]]
         return _Via(SafeLearner(base.obj, seed), base.cur)
@@ -470,6 +512,33 @@ def _run_calls(case, cr, pyrandom, insts):
             dead.discard(i)
             outs.append({"pickle": 1})
             continue
+        if isinstance(g, _Via) and op == "lpredict":
+            # a PMFPredictor-based learner with its OWN pmf: score() every action (no draw), predict, learn
+            seq = via_seqs.setdefault((i, h["n"]), [Item("a%d" % k, k) for k in range(h["n"])])
+            pmf = [g.obj.score(None, seq, a) for a in seq]
+            r = g.obj.predict(None, seq)
+            g.obj.learn(None, r[0], tofloat(h["reward"]), r[1])
+            outs.append({"idx": ident_index(seq, r[0]), "w": q(r[1]), "pmf": [q(x) for x in pmf]})
+            continue
+        if isinstance(g, _Via) and op == "choicew_batch":
+            key = (i, tuple(tuple(r.get("labels") or range(r["n"])) for r in h["rows"]))
+            if key not in via_seqs:
+                via_seqs[key] = _Batch([Item((r.get("labels") or list(range(r["n"])))[k], k) for k in range(r["n"])] for r in h["rows"])
+            acts = via_seqs[key]
+            g.cur["rows"] = [[(p[0] if p[1] == 1 else tofloat(p)) for p in r["w"]] for r in h["rows"]]
+            A_, P_ = g.obj.predict(_Batch([None] * len(acts)), acts)[:2]
+            outs.append({"batch": [{"idx": ident_index(sq, a), "w": q(p)} for sq, a, p in zip(acts, A_, P_)]})
+            continue
+        if op == "choicew_batch":        # on a plain generator: the rows one after the other
+            res = []
+            for r in h["rows"]:
+                labels = r.get("labels") or list(range(r["n"]))
+                sq = [Item(labels[k], k) for k in range(r["n"])]
+                w = [(p[0] if p[1] == 1 else tofloat(p)) for p in r["w"]]
+                a, pw = g.choicew(sq, w)
+                res.append({"idx": ident_index(sq, a), "w": q(pw)})
+            outs.append({"batch": res})
+            continue
         if isinstance(g, _Via):
             labels = h.get("labels") or list(range(h["n"]))
             seq = via_seqs.setdefault((i, tuple(labels)), [Item(labels[k], k) for k in range(h["n"])])
@@ -530,8 +599,9 @@ def _run_calls(case, cr, pyrandom, insts):
                 raise RuntimeError("bad op " + op)
         except tuple(ERRS) as e:
             outs.append({"err": ERRS[type(e)]})
-            if op in ("gauss", "gausses", "gaussiter") or type(e) not in (ValueError, IndexError):
-                dead.add(i)     # a generator that raised is finished; documented rejections leave the stream usable
+            if op in ("gauss", "gausses", "gaussiter") or type(e) not in (ValueError, IndexError, StopIteration):
+                dead.add(i)     # a Python generator that raised inside (_randg) is finished; the error paths of choice/choicew
+                                # (ValueError before the draw, IndexError/StopIteration after it) leave a usable, modelled stream
     return outs
 
 
@@ -717,6 +787,55 @@ class C05(Property):
             hist.append(self.gen_via_op(rng, i) if seeds[i].get("via") else self.gen_op(rng, i))
         return {"seeds": seeds, "hist": hist}
 
+    def gen_learner_case(self, rng):
+        """CobaRandom reached through every PMFPredictor-based learner that runs without extra packages (Fixed, BanditEpsilon, BanditUCB),
+        bare or wrapped once/twice by SafeLearner, and through SafeLearner's batched PMF paths (row- and column-major), interleaved
+        with each other and with plain generators of the same seed"""
+        seeds = []
+        for _ in range(rng.choice([1, 2, 2, 3])):
+            sd = self.gen_seed(rng) if rng.chance(0.4) else {"kind": "int", "v": rng.randint(0, 9)}
+            kd = rng.choice(["fixed", "eps", "ucb", "safe-row", "safe-col", "plain"])
+            if kd != "plain":
+                sd["via"] = kd
+                sd["n"] = rng.choice([2, 3, 4, 5])
+            if kd == "fixed":
+                sd["pmf"] = self.gen_pmf(rng, sd["n"])
+                if rng.chance(0.5):
+                    sd["labels"] = [rng.below(2) for _ in range(sd["n"])]
+            if kd == "eps":
+                sd["eps"] = q(Fraction(rng.choice([0, 1, 2, 4]), 4))
+            if kd in ("fixed", "eps", "ucb") and rng.chance(0.5):
+                sd["wrap"] = rng.randint(0, 9)
+                if rng.chance(0.4):
+                    sd["wrap2"] = rng.randint(0, 9)
+            seeds.append(sd)
+        hist = []
+        for _ in range(rng.choice([3, 5, 8, 12, 16])):
+            i = rng.below(len(seeds))
+            hist.append(self.gen_learner_op(rng, i, seeds[i]))
+        return {"seeds": seeds, "hist": hist}
+
+    def gen_learner_op(self, rng, i, sd):
+        kd = sd.get("via")
+        if kd is None:
+            return self.gen_op(rng, i)
+        n = sd["n"]
+        if kd == "fixed":
+            h = {"i": i, "op": "choicew", "n": n, "w": sd["pmf"]}
+            if sd.get("labels"):
+                h["labels"] = sd["labels"]
+            return h
+        if kd in LEARNER_KINDS:
+            return {"i": i, "op": "lpredict", "n": n, "reward": q(Fraction(rng.randint(0, 8), 8))}
+        B = rng.choice([b for b in (1, 2, 3, 4, 6) if kd == "safe-row" or b != n])
+        rows = []
+        for _ in range(B):
+            r = {"n": n, "w": self.gen_pmf(rng, n)}
+            if rng.chance(0.5):
+                r["labels"] = [rng.below(2) for _ in range(n)]
+            rows.append(r)
+        return {"i": i, "op": "choicew_batch", "rows": rows}
+
     def gen_op(self, rng, i):
         r = rng.below(100)
         if r < 18:
@@ -795,6 +914,8 @@ class C05(Property):
         if seeds[i].get("module"):
             if rng.chance(0.12):      # coba.random.seed(s) in the middle of a history
                 return {"i": i, "op": "reseed", "seed": self.gen_seed(rng)}
+            if rng.chance(0.05):      # the module-level generator itself goes through pickle
+                return {"i": i, "op": "pickle"}
         elif rng.chance(0.06):        # the generator object goes through pickle (multiprocessing)
             return {"i": i, "op": "pickle"}
         elif rng.chance(0.02):
@@ -804,6 +925,8 @@ class C05(Property):
     def generate(self, rng, tier):
         if rng.chance(0.12):
             return self.gen_via_case(rng)
+        if rng.chance(0.08):
+            return self.gen_learner_case(rng)
         ninst = rng.choice([1, 1, 2, 2, 3])
         seeds = [self.gen_seed(rng) for _ in range(ninst)]
         if rng.chance(0.35):
@@ -935,6 +1058,46 @@ class C05(Property):
                 {"i": 0, "op": "choice", "n": 2, "w": [[0, 1], [0, 1]]}, dict(one, i=0),
                 {"i": 0, "op": "gaussiter", "n": 3}, {"i": 0, "op": "gausses", "n": 2}, {"i": 0, "op": "gaussiter", "n": 1}, {"i": 0, "op": "gausses", "n": 0}, dict(one, i=0),
                 {"i": 0, "op": "choice", "n": 1, "w": [[-1, 1]]}]})      # negative total: StopIteration (choice_negative_total_counterexample)
+        return cs + self.corpus_phase4b()
+
+    def corpus_phase4b(self):
+        cs = []
+        one = {"i": 0, "op": "random", "lo": [0, 1], "hi": [1, 1], "exact": True}
+        S = lambda v, **kw: dict({"kind": "int", "v": v}, **kw)
+        # every error path of choice/choicew followed by draws: the stream position after the error is part of the correspondence
+        errs = [{"op": "choice", "n": 2, "w": [[0, 1], [0, 1]]}, {"op": "choicew", "n": 2, "w": [[1, 1], [1, 1], [1, 1]]}, {"op": "choice", "n": 3, "w": []},
+                {"op": "choice", "n": 0, "w": None}, {"op": "choicew", "n": 0, "w": None}, {"op": "choice", "n": 1, "w": [[-1, 1]]},
+                {"op": "choicew", "n": 2, "w": [[1, 1], [-2, 1]]}, {"op": "choice", "n": 0, "w": []}]
+        for s in (1, seed_for(1, 0)):
+            for mod in (False, True):
+                hist = []
+                for e in errs:
+                    hist += [dict(e, i=0), dict(one, i=0), {"i": 0, "op": "choicew", "n": 3, "w": [[1, 4], [1, 4], [1, 2]]}]
+                hist += [{"i": 0, "op": "gauss"}, dict(errs[0], i=0), {"i": 0, "op": "gauss"}, dict(errs[5], i=0), {"i": 0, "op": "gauss"}, {"i": 0, "op": "shuffle", "n": 4}]
+                cs.append({"seeds": [S(s, module=True) if mod else S(s)], "hist": hist})
+        # module-level generator through pickle, after a re-seed
+        cs.append({"seeds": [S(3, module=True)], "hist": [dict(one, i=0), {"i": 0, "op": "reseed", "seed": S(11)}, dict(one, i=0), {"i": 0, "op": "gauss"},
+                                                            {"i": 0, "op": "pickle"}, dict(one, i=0), {"i": 0, "op": "gauss"}, {"i": 0, "op": "randint", "a": 1, "b": 6}]})
+        # learners built on PMFPredictor, bare / wrapped / wrapped twice, same seed, interleaved
+        pm = [[0, 1], [1, 4], [3, 4]]
+        fx = lambda i: {"i": i, "op": "choicew", "n": 3, "w": pm, "labels": [0, 1, 0]}
+        cs.append({"seeds": [S(4, via="fixed", n=3, pmf=pm, labels=[0, 1, 0]), S(4, via="fixed", n=3, pmf=pm, labels=[0, 1, 0], wrap=7),
+                             S(4, via="fixed", n=3, pmf=pm, labels=[0, 1, 0], wrap=7, wrap2=2), S(4)],
+                   "hist": [fx(0), fx(1), fx(1), fx(2), fx(3), fx(0), fx(2), fx(1), fx(3), fx(3)]})
+        lp = lambda i, n, r: {"i": i, "op": "lpredict", "n": n, "reward": [r, 4]}
+        for kd in LEARNER_KINDS:
+            extra = {"eps": [1, 4]} if kd == "eps" else {}
+            cs.append({"seeds": [S(6, via=kd, n=4, **extra), S(6, via=kd, n=4, wrap=3, **extra), S(6, via=kd, n=3, wrap=1, wrap2=5, **extra)],
+                       "hist": [lp(0, 4, 1), lp(1, 4, 1), lp(2, 3, 0), lp(0, 4, 3), lp(1, 4, 3), lp(2, 3, 4), lp(0, 4, 0), lp(0, 4, 2), lp(1, 4, 0), lp(1, 4, 2),
+                                lp(2, 3, 1), lp(0, 4, 4), lp(1, 4, 4), lp(2, 3, 2), lp(0, 4, 1), lp(1, 4, 1)]})
+        # SafeLearner's batched PMF paths: the same rows, row-major / column-major / one by one / on a plain generator, one seed
+        rows = [{"n": 3, "w": pm, "labels": [0, 1, 0]}, {"n": 3, "w": [[1, 2], [1, 2], [0, 1]]}, {"n": 3, "w": [[0, 1], [0, 1], [1, 1]], "labels": [1, 1, 1]},
+                {"n": 3, "w": [[1, 4], [1, 2], [1, 4]]}]
+        bt = lambda i, k: {"i": i, "op": "choicew_batch", "rows": rows[:k]}
+        for s in (1, 5):
+            cs.append({"seeds": [S(s, via="safe-row", n=3), S(s, via="safe-col", n=3), S(s), S(s, via="safe")],
+                       "hist": [bt(0, 4), bt(1, 4), bt(2, 4), bt(0, 2), bt(1, 2), bt(2, 2), bt(0, 3), bt(1, 1), bt(2, 1), bt(0, 1)]
+                       + [dict(r, i=3, op="choicew") for r in rows]})
         return cs
 
     # ---- evaluation
@@ -1033,6 +1196,21 @@ class C05(Property):
                         fails.append(F("B", "choicew reported weight %s for member %d whose weight is %s" % (o["w"], i, w[i]), "choicew-wrong-weight"))
                 elif op == "choicew" and unq(o["w"]) != unq(q(1 / h["n"])):
                     fails.append(F("B", "choicew without weights reported %s, expected 1/%d" % (o["w"], h["n"]), "choicew-wrong-weight"))
+            elif op == "lpredict":
+                i = o["idx"]
+                if unq(o["pmf"][i]) == 0:
+                    fails.append(F("B", "%s learner predicted member %d whose probability is 0 (pmf %s)" % (via, i, o["pmf"]), "choice-zero-weight"))
+                if unq(o["w"]) != unq(o["pmf"][i]):
+                    fails.append(F("B", "%s learner reported probability %s for member %d whose probability is %s" % (via, o["w"], i, o["pmf"][i]), "choicew-wrong-weight"))
+            elif op == "choicew_batch":
+                tags.append("batch:%d" % len(h["rows"]))
+                if len(o["batch"]) != len(h["rows"]):
+                    fails.append(F("B", "batched predict of %d rows returned %d actions" % (len(h["rows"]), len(o["batch"])), "batch-length"))
+                for r, ob in zip(h["rows"], o["batch"]):
+                    if unq(r["w"][ob["idx"]]) == 0:
+                        fails.append(F("B", "batched predict returned member %d whose weight is 0 (weights %s)" % (ob["idx"], r["w"]), "choice-zero-weight"))
+                    if unq(ob["w"]) != unq(r["w"][ob["idx"]]):
+                        fails.append(F("B", "batched predict reported weight %s for member %d whose weight is %s" % (ob["w"], ob["idx"], r["w"][ob["idx"]]), "choicew-wrong-weight"))
             elif op in ("gauss", "gausses", "gaussiter"):
                 if op != "gauss" and len(o["gaussv"]) != h["n"]:
                     fails.append(F("B", "gausses(%d) returned %d values" % (h["n"], len(o["gaussv"])), "gausses-length"))
@@ -1056,12 +1234,27 @@ class C05(Property):
             own = [(h, o) for h, o in zip(hist, impl) if h.get("i") == i]
             if any("skipped" in o for _, o in own):
                 continue
+            if sd.get("via") in LEARNER_KINDS:
+                # one seed -> the same draws whatever the learner, its wrapping or the other generators: CobaRandom(seed) is fed the pmfs the learner used
+                import coba.random as cr_
+                refg = cr_.CobaRandom(mk_seed(sd))
+                for k, (h, o) in enumerate(own):
+                    if "pmf" not in o:
+                        break
+                    a, pw = refg.choicew(list(range(h["n"])), [tofloat(x) for x in o["pmf"]])
+                    if a != o["idx"] or q(pw) != o["w"]:
+                        fails.append(F("B", "instance %d (seed %s): call %d of the %s learner%s returned member %d with probability %s, CobaRandom(seed).choicew on the same pmf %s gives member %d with %s"
+                                       % (i, json.dumps(sd), k, sd["via"], " wrapped in SafeLearner" if sd.get("wrap") is not None else "", o["idx"], o["w"], o["pmf"], a, q(pw)),
+                                       "caller-not-seed-stream:" + sd["via"]))
+                        break
+                continue
             if sd.get("module") or sd.get("via"):
                 ref = run_history({"seeds": [plain_seed(sd)], "hist": [dict(h, i=0) for h, _ in own]})
                 got = [o for _, o in own]
                 if json.dumps(ref, default=str) != json.dumps(got, default=str):
                     what = "the module-level functions (coba.random.seed(s); coba.random.f(...))" if sd.get("module") else \
-                        {"pmf": "PMFPredictor(pmf,seed).predict", "pmfinfo": "PMFInfoPredictor(pmf,seed).predict"}.get(sd["via"], "SafeLearner(%slearner,seed).predict" % ("SafeLearner(..)-wrapped " if ("of" in sd or "inner" in sd) else ""))
+                        {"pmf": "PMFPredictor(pmf,seed).predict", "pmfinfo": "PMFInfoPredictor(pmf,seed).predict", "fixed": "FixedLearner(pmf,seed).predict (bare or SafeLearner-wrapped)",
+                         "safe-row": "SafeLearner(learner,seed).predict on a row-major batch", "safe-col": "SafeLearner(learner,seed).predict on a column-major batch"}.get(sd["via"], "SafeLearner(%slearner,seed).predict" % ("SafeLearner(..)-wrapped " if ("of" in sd or "inner" in sd) else ""))
                     k = next((j for j, (a, b) in enumerate(zip(ref, got)) if json.dumps(a, default=str) != json.dumps(b, default=str)), 0)
                     fails.append(F("B", "instance %d (seed %s): %s did not give the values CobaRandom(seed) gives for the same calls; call %d %s: CobaRandom %s, got %s"
                                    % (i, json.dumps(sd), what, k, json.dumps(own[k][0]), json.dumps(ref[k], default=str)[:160], json.dumps(got[k], default=str)[:160]),
@@ -1107,6 +1300,13 @@ class C05(Property):
             for k, (h, o) in enumerate(zip(hist, impl)):
                 if h["op"] == "noise" or "skipped" in o:
                     continue
+                if h["op"] == "lpredict":
+                    continue        # the pmf is the learner's own (floats, not dyadic): (B) only
+                if h["op"] == "choicew_batch":
+                    for r in h["rows"]:
+                        mhist.append({"i": h["i"], "op": "choicew", "n": r["n"], "w": r["w"]})
+                    midx.extend([k] * len(h["rows"]))
+                    continue
                 if h["op"] == "reseed":
                     mhist.append({"i": h["i"], "op": "reseed", "seed": seed_for_model(h["seed"])})
                     continue
@@ -1122,7 +1322,12 @@ class C05(Property):
             if len(model) != len(midx):
                 fails.append(F("A", "model produced %d outputs for %d value-returning calls" % (len(model), len(midx)), "A:count"))
             for (inst, mo), k in zip(model, midx):
-                if hist[k]["op"] == "gaussiter" and "gauss" in mo:
+                if hist[k]["op"] == "choicew_batch":
+                    if k not in merged:
+                        merged[k] = (inst, {"batch": []})
+                        order.append(k)
+                    merged[k][1]["batch"].append(mo)
+                elif hist[k]["op"] == "gaussiter" and "gauss" in mo:
                     if k not in merged:
                         merged[k] = (inst, {"gauss": []})
                         order.append(k)
@@ -1168,6 +1373,13 @@ class C05(Property):
             return None if o["perm"] == mo["perm"] else "permutation differs"
         if op == "choice":
             return None if o["idx"] == mo["idx"] else "index differs"
+        if op == "choicew_batch":
+            if len(o["batch"]) != len(mo["batch"]):
+                return "batch length differs"
+            for a, b in zip(o["batch"], mo["batch"]):
+                if "err" in b or a["idx"] != b["idx"] or unq(a["w"]) != unq(b["w"]):
+                    return "batch row differs"
+            return None
         if op == "choicew":
             if o["idx"] != mo["idx"]:
                 return "index differs"
